@@ -128,6 +128,15 @@ func (t tupleVariation) calculateScalar(coords []VarCoord, sharedTuples [][]VarC
 		}
 	}
 
+	// invalid font ('gvar' and 'fvar' disagree on the number of axes) or
+	// coordinates of the wrong length : only use the common axes
+	if endIdx > len(peakTuple) {
+		endIdx = len(peakTuple)
+	}
+	if endIdx > len(coords) {
+		endIdx = len(coords)
+	}
+
 	startTuple, endTuple := t.IntermediateTuples[0].Values, t.IntermediateTuples[1].Values
 	hasIntermediate := startTuple != nil
 
